@@ -36,6 +36,8 @@ func genQuery(r *rng, uniq string) (q []byte, adv int) {
 	typ := pick(r, commonTypes)
 	if r.coin(50) {
 		typ = pick(r, []int{1, 28, 12, 16})
+	} else if r.coin(30) {
+		typ = r.intn(65536) // any of the 65536 types, assigned or not, mostly never seen before in this run
 	}
 	class := pick(r, commonClasses)
 	flags := []int{0x0100, 0x0000, 0x0120, 0x0110, 0x8180, 0x0300, 0x7900}[r.intn(7)]
